@@ -65,13 +65,18 @@ def run_history(case):
                 O.apply_mut(m, op)
             except Exception as e:  # noqa: BLE001
                 out = type(e).__name__
-        r = {"out": out, "ids": O.ids_of(m), "keys": O.keylists(m), "ans": ans, "changed": False}
+        r = {"out": out, "ids": O.ids_of(m), "keys": O.keylists(m), "ans": ans, "changed": False,
+             "effect": "as documented"}
         s = None
         if check:
             after = O.snapshot(m)
             if out != "ok":
                 r["changed"] = after != before or r["ids"] != ids_before
-            s = {"keys": r["keys"], "changed": False, "ans": None}
+            s = {"keys": r["keys"], "changed": False, "ans": None, "effect": "as documented"}
+            if out == "ok" and op[0] != "q":
+                exp = c03spec.expected_content(before, op)
+                if exp is not None and exp != after:
+                    r["effect"] = {"content differs in": [k for k in O.KEYS if exp[k] != after[k]]}
             exp = c03spec.expected_outcome(before, op) if op[0] != "q" else "ok"
             s["out"] = r["out"] if exp is None else exp
             try:
@@ -115,6 +120,13 @@ def model_histories(cases):
             ans = o.get("ans")
             if ans is not None:
                 ans = canon_model_ans(ans)
+                q = c["ops"][len(obs)]
+                if "ok" in ans and q[1] == "stoich":
+                    from vlib import content as C
+
+                    ans = {"ok": C.canon_stoich({cp: dict(row) for cp, row in ans["ok"]})}
+                elif "ok" in ans and q[1] == "stoichvar":
+                    ans = {"ok": sorted(ans["ok"])}
             obs.append({"out": o["out"], "ids": sorted(o["ids"]), "keys": o["keys"], "ans": ans})
         out.append(obs)
     return out
@@ -153,7 +165,7 @@ def diffs(R, S):
     for i, (r, s) in enumerate(zip(R, S)):
         if s is None:
             continue
-        for key in ("out", "changed", "ids", "ans"):
+        for key in ("out", "changed", "effect", "ids", "ans"):
             if r[key] != s[key]:
                 out.append((i, key))
                 break
@@ -169,6 +181,7 @@ def m_view(r, mobs):
     """M has no notion of 'changed'/'prefix' (they are R-vs-oracle facts): copy them"""
     v = dict(mobs)
     v["changed"] = r["changed"]
+    v["effect"] = r["effect"]
     if "prefix" in r:
         v["prefix"] = True
     return v
@@ -375,10 +388,10 @@ def setup(ctx):
     ctx.translate(T.generate)
     ctx.build(PROPS)
     ctx.rule = (
-        "op histories over all 30 public Model mutators (valid and invalid arguments) and 8 query forms; distinct = "
+        "op histories over all 30 public Model mutators (valid and invalid arguments) and 10 query forms; distinct = "
         "distinct op lists; non-trivial = contains at least one mutator after the build prefix. Exhaustive stratum "
         "(seed-independent): build; q1|none; m; q2; battery for every mutator x every listed argument choice x "
-        "(none + 3 query forms in quick, none + 8 in thorough) x 8 query forms."
+        "(none + 2 query forms in quick, none + 10 in thorough) x 10 query forms (incl. get_stoichiometries[_of_variable])."
     )
     ctx.assumptions += [
         "data sets are scalars (the Model stores whatever object it is given; pandas objects are not modelled)",
@@ -403,7 +416,7 @@ def run(ctx):
     ctx.exhaustive = True
     thorough = ctx.tier == "thorough"
     cur = []
-    for c in G.pairs(None if thorough else 3):
+    for c in G.pairs(None if thorough else 2):
         cur.append(c)
         if len(cur) == 400:
             evaluate(ctx, cur, judge)
